@@ -87,7 +87,7 @@ def harness(u, n, checked):
 
 def build(ctx):
     hs = []
-    ns = list(range(0, ctx.q(6, 9)))
+    ns = list(range(0, ctx.q(9, 13)))
     ctx.assumptions = ["input length L <= N (documented precondition); C-string overload: no interior NUL; all array contents, guards, input bytes, L, eos mode, count, value symbolic"]
     modes = ["checked"] if ctx.quick else ["checked", "unchecked"]
     plan = [(std, mode, False) for std in hgen.stds(ctx) for mode in modes]
